@@ -58,19 +58,23 @@ func Run(sc Scenario, T time.Duration) *Result {
 	s.mu.Unlock()
 	sortInts(res.Hung)
 	// the snapshot must describe the state after exactly log[:SnapAt]: retry while the log moves
-	for i := 0; i < 50; i++ {
+	stable := 0
+	for i := 0; i < 400 && stable < 2; i++ {
 		s.mu.Lock()
 		n1 := len(s.log)
 		s.mu.Unlock()
 		res.Total, res.Free, res.Reqs = s.safeSnapshot()
+		time.Sleep(time.Millisecond)
 		s.mu.Lock()
 		n2 := len(s.log)
 		s.mu.Unlock()
 		res.SnapAt = n2
 		if n1 == n2 {
-			break
+			stable++ // two consecutive reads without log movement
+		} else {
+			stable = 0
+			time.Sleep(3 * time.Millisecond)
 		}
-		time.Sleep(2 * time.Millisecond)
 	}
 	res.Probe = "none"
 	if !res.Closed {
